@@ -36,7 +36,10 @@ NAMES_OUT = ["ack", "nak", "stall", "txValid", "txFirst", "txLast", "txPayload",
              "newAddress", "configChanged", "newConfig", "cehEnable", "cehDirection", "cehNumber",
              "dataRequested", "statusRequested", "hsAckForwarded",
              "h.claim", "h.ack", "h.stall", "h.dStart", "h.dReady", "h.tStart", "h.tReady", "h.tMaxLen", "h.tData0",
-             "stage", "hstate", "startPos", "txPid", "expectingAck"]
+             "stage", "hstate", "startPos", "txPid", "expectingAck",
+             # the serializer MODEL (Model/Usb2/ControlCycSys.lean) driven by the model's wires; expected = the real
+             # transmitter's outputs of the same cycle (which are also the inputs tValid … tPayload)
+             "ser.valid", "ser.first", "ser.last", "ser.payload"]
 
 STAGES = ["SETUP", "DATA_IN", "DATA_OUT", "STATUS_IN", "STATUS_OUT"]
 HSTATES = ["IDLE", "GET_STATUS", "CLEAR_FEATURE", "SET_ADDRESS", "SET_CONFIGURATION", "GET_DESCRIPTOR",
@@ -515,7 +518,8 @@ def run_cyc(desc):
     for d, si in zip(rows_d, rows_i):
         inputs.append([d["endpoint"], d["new_token"], d["ready_for_response"], d["is_in"], d["is_out"], d["is_setup"],
                        d["is_ping"], d["rx_ready"], d["hs_ack"], d["active_config"], d["tx_ready"]] + list(si))
-    outputs = [list(o) for o in rows_o]
+    # + what the serializer model must show: the real transmitter's stream outputs of the cycle
+    outputs = [list(o) + list(si[14:18]) for o, si in zip(rows_o, rows_i)]
     # the simulator's FSM encodings -> the driver's fixed numbering
     smap = {b.stage_enc[n]: k for k, n in enumerate(STAGES)}
     hmap = {b.hstate_enc[n]: k for k, n in enumerate(HSTATES)}
